@@ -17,10 +17,10 @@ import (
 func c12Type() *kit.EltType[Elt] {
 	prime := new(big.Int).Sub(kit.Pow2(255), big.NewInt(19))
 	return &kit.EltType[Elt]{
-		F:    &kit.F{Name: "fp25519", P: prime, Bits: 256, C: 38},
-		Size: Size,
-		From: func(v *big.Int) (e Elt) { copy(e[:], vlib.LE(v, Size)); return },
-		To:   func(e *Elt) *big.Int { return vlib.FromLE(e[:]) },
+		F:            &kit.F{Name: "fp25519", P: prime, Bits: 256, C: 38},
+		Size:         Size,
+		From:         func(v *big.Int) (e Elt) { copy(e[:], vlib.LE(v, Size)); return },
+		To:           func(e *Elt) *big.Int { return vlib.FromLE(e[:]) },
 		InvSqrtNonQR: "undetermined",
 	}
 }
